@@ -25,6 +25,8 @@ func runC05(p *Program, r *Report) {
 	ruleR054(p, r)
 	r.Rule("R05.5", "E2", 2, "table rules compare whole table names: every lookup into a table-rule set made by the firewall's table matchers uses a key printed from the complete table expression (sqlparser.String of the TableName / table expression, qualifier included), never from a component such as the bare name")
 	ruleR055(p, r)
+	r.Rule("R05.6", "E3", 1, "every security handler sees every statement: in AcraCensor.HandleQuery the only conditions under which a handler of the chain is skipped are the two handler-kind tests (capture, ignore); no property of the statement - parsed or not - makes the loop pass over an allow/deny/denyall handler")
+	ruleR056(p, r)
 }
 
 func blocksWithCall(fn *ssa.Function, pred func(cs callSite) bool) map[*ssa.BasicBlock]bool {
@@ -602,4 +604,69 @@ func ruleR055(p *Program, r *Report) {
 	if n == 0 {
 		r.Bad("R05.5", "acra-censor/common", "table-rule lookups", "-", "no lookup into the table-rule set found in the table matchers")
 	}
+}
+
+func ruleR056(p *Program, r *Report) {
+	fn := p.Func("acra-censor.(*AcraCensor).HandleQuery")
+	if fn == nil || fn.Blocks == nil {
+		r.Anchor("R05.6", "AcraCensor.HandleQuery")
+		return
+	}
+	var check *ssa.Call
+	for _, c := range callsNamed(fn, "CheckQuery") {
+		if c.Common().IsInvoke() {
+			check = c
+		}
+	}
+	if check == nil {
+		r.Anchor("R05.6", "HandleQuery: handler.CheckQuery invoke")
+		return
+	}
+	// loop header: the nearest block that dominates the call and is reachable from it
+	var header *ssa.BasicBlock
+	for _, b := range fn.Blocks {
+		if b.Dominates(check.Block()) && b != check.Block() {
+			for _, s := range check.Block().Succs {
+				if s == b || reaches(s, b, nil) {
+					if header == nil || header.Dominates(b) {
+						header = b
+					}
+				}
+			}
+		}
+	}
+	ok, why := header != nil, "the handler call is not inside the loop over the chain"
+	if ok {
+		for _, i := range allIfs(fn) {
+			b := i.Block()
+			if !(header.Dominates(b) && b.Dominates(check.Block())) || b == header {
+				continue
+			}
+			// a branch between the loop header and the call: one side leads to the call, the other skips it
+			for s := 0; s < 2; s++ {
+				to, other := b.Succs[s], b.Succs[1-s]
+				if !(to == check.Block() || to.Dominates(check.Block())) {
+					continue
+				}
+				skips := other == header || reaches(other, header, map[*ssa.BasicBlock]bool{check.Block(): true})
+				if !skips {
+					continue
+				}
+				isKind := false
+				if ex, isEx := i.Cond.(*ssa.Extract); isEx {
+					if ta, isTa := ex.Tuple.(*ssa.TypeAssert); isTa && ta.CommaOk && ex.Index == 1 {
+						isKind = true
+					}
+				}
+				if !isKind {
+					ok, why = false, "a handler of the chain is skipped under a condition that is not a handler-kind test ("+p.Pos(i.Pos())+")"
+				}
+			}
+		}
+	}
+	r.Check(ok, "R05.6", fnName(fn), "handlers are skipped only by kind", p.Pos(check.Pos()), "only the capture/ignore type tests bypass CheckQuery", why+": a statement with that property never reaches the allow/deny/denyall handlers behind it and is forwarded")
+}
+
+func init() {
+	mut("C05", "unparsed statements skip every handler", "acra-censor/acra-censor_implementation.go", "		// Security checks (allow/deny handlers)\n		continueHandling, err := handler.CheckQuery(normalizedQuery, parsedQuery)", "		// Security checks (allow/deny handlers)\n		if parsedQuery == nil {\n			continue\n		}\n		continueHandling, err := handler.CheckQuery(normalizedQuery, parsedQuery)", "R05.6", "skipped only by kind")
 }
